@@ -153,6 +153,9 @@ func genC02(c *Ctx) {
 		}
 		out := c.Emit("c02.hashes", in, fmt.Sprintf("%s|root-%s|mask%d", fam, ty, rt.Mask))
 		c02Oracle(c, in, dag, root, out)
+		// origin "parsed from a bag of cells": every header variant of the
+		// reference serialiser incl. stored hashes, every cell a root (c02b.go)
+		c02ParsedOrigin(c, in, dag, root, i%7 == 0)
 	}
 	// the root cell of every real block in testdata (Merkle updates with pruned
 	// branches inside): origin "parsed from a bag of cells"
@@ -165,6 +168,18 @@ func genC02(c *Ctx) {
 			c.Emit("c07.parse", sx.Bytes(b), "real-block")
 		}
 	}
+	// nested Merkle cells: non-contiguous masks 2, 4, 5, 6 at every kind of
+	// position, parsed from bags with and without stored hashes
+	for i := 0; i < c.Scale(60, 2000); i++ {
+		dag := nestedMerkleDag(r)
+		in := sx.L(dagSx(dag), sx.Nat(0))
+		if i%3 == 0 {
+			c.Emit("c02.hashes", in, fmt.Sprintf("nested-merkle|root-mask%d", dag[0].Mask))
+		}
+		c02ParsedOrigin(c, in, dag, 0, i%2 == 0)
+	}
+	// goroutines hashing unrelated cells (c02b.go)
+	genC02Conc(c)
 	// histories of requests on one caching hasher (c02b.go)
 	genC02Histories(c)
 	// cells produced by the library's proof builder (c02b.go)
